@@ -800,7 +800,7 @@ theorem fix_file (a : N) (hs : stableFile a = true) : fmtFile (normFile a) = fmt
   cases a with
   | map one nodes =>
     simp only [stableFile, Bool.and_eq_true] at hs
-    obtain ⟨hst, hone⟩ := hs
+    obtain ⟨⟨hst, hone⟩, _⟩ := hs
     have hst0 := hst
     simp only [stable, Bool.and_eq_true] at hst
     obtain ⟨⟨⟨⟨_, hk⟩, hc⟩, hsuf⟩, hsl⟩ := hst
